@@ -13,7 +13,7 @@ from cgsim import gen as G, ref, peers
 from cgsim.core import fp, Skip, state_digest
 
 ID = "C19"
-QUICK = dict(worlds=16, runs=400, seconds=25)
+QUICK = dict(worlds=16, runs=400, seconds=15)
 THOROUGH = dict(worlds=256, runs=3000, seconds=30)
 RULE = ("seeded histories of 6-25 call/edit steps over a pool of circuits; distinct = initial nets + step list; "
         "non-trivial = at least 3 calls returned, 1 raised and 1 edit was followed by a snapshot comparison")
